@@ -596,7 +596,8 @@ def run(ctx):
     for gname, gfun, what in (('Gen_SelSort.v', sel2coq.translate, 'pvSelectionSort'),
                               ('Gen_Radix.v', sel2coq.translate_radix, 'code getters, pvGetRadix, first shift of Sort'),
                               ('Gen_RadixCount.v', sel2coq.translate_count, 'counting pass + prefix sums of pvRadixSort'),
-                              ('Gen_RadixCycle.v', sel2coq.translate_cycle, 'cycle-leader permutation of pvRadixSort')):
+                              ('Gen_RadixCycle.v', sel2coq.translate_cycle, 'cycle-leader permutation of pvRadixSort'),
+                              ('Gen_HsGuards.v', sel2coq.translate_guards, 'entry guards of pvFindHash / pvIsSorted')):
         gpath = os.path.join(ctx.cdir, gname)
         try:
             txt = gfun(repo=ctx.repo)
